@@ -29,7 +29,7 @@ def range_run(maxlen):
     """Returns dict(cases, evaluations, bad, first, samples)."""
     d = vlib.scratch("range-")
     try:
-        consts = dict(MaxLen=maxlen, Sizes=set(SIZES), Toks=RANGE_TOKS, UnitPrefixes=RANGE_PREFIXES, IfRangeOn=False,
+        consts = dict(MaxLen=maxlen, Sizes=set(SIZES), Toks=RANGE_TOKS, UnitPrefixes=RANGE_PREFIXES, IfRangeOn=False, FullOK=False,
                       CaseFile=os.path.join(d, "cases.ndjson"), ResultFile=os.path.join(d, "res.ndjson"))
         ncases, r = _gen_and_run("RangeGen", "RangeJudge", consts, "range", d, ["-sizes", ",".join(map(str, SIZES))])
         m = re.search(r'<<\s*"RANGE-RESULT",\s*(\d+),\s*(\d+),(.*)>>\s*\n', r["out"], re.S)
